@@ -111,7 +111,24 @@ def generate(r, tier):
     }
 
 
+def _gen_placement_hierarchy(r):
+    """A sync method that overrides a base method whose precondition is an async condition: the inherited (earlier)
+    group holds the misplaced contract, the override's own (later) group is satisfied."""
+    style = r.choice(["async", "corolambda"])
+    w = {
+        "funcs": [],
+        "classes": [
+            {"name": "K0", "init": {"super": "first"}, "methods": [{"name": "m0", "kind": "method", "pre": [{"style": style}], "post": []}], "invs": []},
+            {"name": "K1", "base": "K0", "methods": [{"name": "m0", "kind": "method", "pre": [{} for _ in range(r.randint(1, 2))], "post": [{}] if r.random() < 0.5 else []}], "invs": []},
+        ],
+        "objects": [{"name": "o9", "cls": "K1"}],
+    }
+    return {"property": ID, "mode": "placement", "world": w, "ticket": {"id": "pl", "fn": "m0", "obj": "o9"}, "site": "K0.m0/pre0", "role": "pre", "style": style}
+
+
 def _gen_placement(r):
+    if r.random() < 0.3:
+        return _gen_placement_hierarchy(r)
     w = gen.gen_world(r, False, nfuncs=(1, 2), with_class=0.4, forms=False)
     for o in w.get("objects", ()):
         o.pop("flags", None)
